@@ -18,7 +18,9 @@ RULE = ("time grids (odd/even lengths 2..40, four sampling steps, zero / positiv
         "exactly on FFT bins) x amplitude spec (number, vectorised callable, scalar-only callable, default Rayleigh "
         "from the tape) x rms given / from temperature and resistance / missing x uniqueness 0.5, 1, 2, 2.7, 3, 4 x "
         "both classes; compared: freqs, amps, phases, rms, values on the own grid, on sub-windows, on windows shifted "
-        "by whole samples beyond one period, and off-grid times; a case is non-trivial when the basis is non-empty; "
+        "by whole samples beyond one period, off-grid times, and re-gridding requests sharing some but not all of "
+        "(start, number of points, dt, end) with the own grid or the generated full trace (same start+count / other dt, "
+        "same dt+count / other start, same start+end / other count, supersets, one-sample grids); a case is non-trivial when the basis is non-empty; "
         "distinct = distinct (class, grid, band, spec, uniqueness) tuples")
 LEVEL_TEXT = ("theorems (cosine-sum form of both classes, band membership, irfft = cosine sum for bins strictly between "
               "DC and Nyquist, half-weight Nyquist bin, periodic interpolation consistent iff the period is n*dt, unit "
@@ -27,10 +29,12 @@ LEVEL_TEXT = ("theorems (cosine-sum form of both classes, band membership, irfft
 LEVEL_NOTE = ("rayleigh_mean_square assumes E[A_k^2] = 1 for np.random.rayleigh(1/sqrt 2) (named hypothesis) and proves "
               "the phase integrals; scipy.fft.irfft is modelled by the inverse DFT of the Hermitian completion in its "
               "weighted one-sided form, proved equal to that inverse DFT (C17_irfft_is_hermitian_idft); np.interp(period=) by "
-              "reduce/stable sort/wrap/linear interpolation; fft_period is proved as: consistent at every grid time of "
-              "every period when the period is n*dt (C17_fft_period), and with (n-1)*dt sample 0 returns the last grid "
-              "value for every n >= 2 (C17_fft_period_unrepaired_witness) - the 'only if' over arbitrary other periods "
-              "is not attempted; unit_amp_rms is proved for the FFT class on its grid period and for the full class in "
+              "reduce/stable sort/wrap/linear interpolation; the period claim is proved in full: consistent at every grid "
+              "time of every period for all data iff n*dt = q*P with q coprime to n (C17_fft_period_iff), hence among "
+              "periods P >= (n-1)*dt iff P = n*dt (C17_fft_period_unique); the design's plain 'iff P = n*dt' is false "
+              "without that restriction (P = n*dt/q, q coprime to n, also reads the right knot at every grid time); "
+              "C17_fft_period / C17_fft_period_unrepaired_witness state the two source candidates on the model object; "
+              "unit_amp_rms is proved for the FFT class on its grid period and for the full class in "
               "continuous time over one common period; "
               "floating-point rounding is not modelled (tolerance 1e-9 of the peak); k_B is hard-coded in Noise.body "
               "and compared with scipy.constants.k by the correspondence run")
@@ -38,7 +42,8 @@ ASSUMPTIONS = ["E[A^2] = 1 for A ~ numpy.random.rayleigh(1/sqrt(2)) (second mome
                "numpy.random.rand returns independent uniform variates on [0,1) (phases uniform on [0,2pi))",
                "scipy.fft.irfft / rfftfreq, numpy.interp / linspace follow their specification"]
 
-CHECKER_MODULES = ["PyrexVerif.Proofs.Noise", "PyrexVerif.Proofs.NoiseInterp", "PyrexVerif.Proofs.NoiseCollision",
+CHECKER_MODULES = ["PyrexVerif.Proofs.Noise", "PyrexVerif.Proofs.NoiseInterp", "PyrexVerif.Proofs.NoiseCollision", "PyrexVerif.Proofs.NoiseImpulse", "PyrexVerif.Proofs.NoisePeriodSuff",
+                   "PyrexVerif.Proofs.NoisePeriodIff",
                    "PyrexVerif.Proofs.NoiseHermitian", "PyrexVerif.Proofs.NoiseOrtho", "PyrexVerif.Proofs.NoiseOrthoCont",
                    "PyrexVerif.Proofs.NoisePhase"]
 
@@ -201,6 +206,50 @@ def windows(run, case, times):
     return out
 
 
+def regrid_specs(run, case, k=None):
+    """re-gridding requests that share some but not all of (start, number of points, dt, end) with the object's own
+    grid or with the generated full trace; each is {"name", "off" (start offset in units of dt), "count", "mul"
+    (spacing in units of dt)} -> grid t0 + off*dt + arange(count)*(mul*dt)"""
+    rng = run.rng
+    n = case["n"]
+    nall = max(1, int(case["uniq"])) * n
+    out = []
+    for cnt, tag in ((n, "own"), (nall, "full")):
+        cnt_ = min(cnt, 130)
+        for mul in (2.0, 0.5, 1.37):
+            out.append({"name": "start+count(%s)/dt" % tag, "off": 0.0, "count": cnt, "mul": mul} if cnt <= 130 else
+                       {"name": "start/dt", "off": 0.0, "count": cnt_, "mul": mul})
+        for off in (0.5, -2.25, float(rng.randint(-2 * n, 2 * n)), float(n)):
+            out.append({"name": "dt+count(%s)/start" % tag, "off": off, "count": cnt_, "mul": 1.0})
+        for c2 in (2 * cnt - 1, (cnt + 1) // 2, cnt + 1, cnt - 1):
+            if 2 <= c2 <= 130 and c2 != cnt:
+                out.append({"name": "start+end(%s)/count" % tag, "off": 0.0, "count": c2, "mul": (cnt - 1) / (c2 - 1)})
+    a, b = rng.randint(1, 4), rng.randint(1, 4)
+    out.append({"name": "superset", "off": -float(a), "count": n + a + b, "mul": 1.0})
+    out.append({"name": "superset-finer", "off": -float(a), "count": 2 * (n + a + b) - 1, "mul": 0.5})
+    out.append({"name": "superset-full", "off": -float(a), "count": min(nall + a + b, 130), "mul": 1.0})
+    for off in (0.0, float(n - 1), 0.3, float(nall)):
+        out.append({"name": "single-sample", "off": off, "count": 1, "mul": 1.0})
+    if k is not None:
+        out = rng.sample(out, min(k, len(out)))
+    return out
+
+
+def regrid_times(times, dt, g):
+    return times[0] + g["off"] * dt + np.arange(g["count"]) * (g["mul"] * dt)
+
+
+def regrid_values(nz, tt):
+    """values on the grid, or "unsupported" when a one-sample grid makes FunctionSignal raise TypeError (it has no
+    sample spacing; every FunctionSignal does that, see the report)"""
+    try:
+        return [float(x) for x in nz.with_times(tt).values]
+    except TypeError:
+        if len(tt) == 1:
+            return "unsupported"
+        raise
+
+
 def req_for(case, times, amp_tape, phase_tape, ts):
     spec = case["spec"]
     if spec[0] == "const":
@@ -244,9 +293,15 @@ def correspondence(run):
                 ts = list(map(float, times))
             else:
                 parts = [("own", times)] + windows(run, case, times)
+                for g in regrid_specs(run, case, 4):
+                    parts.append((g["name"], regrid_times(times, case["dt"], g)))
                 vals, ts = [], []
                 for name, tt in parts:
-                    v = nz.values if name == "own" else nz.with_times(tt).values
+                    v = list(nz.values) if name == "own" else regrid_values(nz, tt)
+                    unsup = isinstance(v, str)
+                    run.count("grid_" + name.split("(")[0] + ("_unsupported" if unsup else ""))
+                    if unsup:
+                        continue
                     vals += [float(x) for x in v]
                     ts += [float(x) for x in tt]
                 exp = ([float(x) for x in nz.freqs], [float(x) for x in nz.amps], [float(x) for x in nz.phases],
@@ -370,8 +425,43 @@ def oracle(inp):
             out.append((kind, tag + [i, float(vals[i])], tag + [i, float(ref[i])], what, "K4"))
         else:
             out.append((kind, tag + [i, float(vals[i])], tag + [i, float(ref[i])], what, None))
+    def ref_at(tt, with_k4):
+        """what the published basis prescribes at arbitrary absolute times: the cosine sum itself (full class); for
+        the FFT class the cosine sum at the grid times t_0 + j*dt, joined linearly in between"""
+        tt = np.asarray(tt, dtype=float)
+        if cls == "full" or N == 0:
+            return cos_sum(nz, cls, tt, t_ref)
+        dte = float(nz._dt)
+        x = (tt - times[0]) / dte
+        j = np.floor(x + 1e-9)
+        w = np.clip(x - j, 0.0, 1.0)
+        lo, hi = int(j.min()), int(j.max()) + 1
+        jj = np.arange(lo, hi + 1)
+        S = cos_sum(nz, cls, times[0] + jj * dte, t_ref)
+        if with_k4:
+            S = S - k4_shortfall(jj)
+        a = (j - lo).astype(int)
+        return (1 - w) * S[a] + w * S[a + 1]
+
     v = np.array(nz.values)
     ref = cos_sum(nz, cls, times, t_ref)
+    # (2b) re-gridding requests sharing part of (start, count, dt, end) with the own grid / the generated trace
+    for g in inp.get("regrids", []):
+        tt = regrid_times(times, dt, g)
+        w_ = regrid_values(nz, tt)
+        if isinstance(w_, str):
+            continue
+        w_ = np.array(w_)
+        span = float(np.max(np.abs(tt - times[0]))) / dt
+        tolg = tol * (1 + span / 10)
+        rg = ref_at(tt, False)
+        if len(w_) != len(tt) or np.max(np.abs(w_ - rg)) > tolg:
+            i = int(np.argmax(np.abs(w_ - rg))) if len(w_) == len(tt) else -1
+            key = "K4" if (k4 and len(w_) == len(tt) and np.max(np.abs(w_ - ref_at(tt, True))) <= tolg) else None
+            out.append(("regrid", [g["name"], i, float(w_[i])], [g["name"], i, float(rg[i])],
+                        "with_times on a grid sharing part of (start, count, dt, end) with the own grid / full trace "
+                        "(%s: offset %g dt, %d points, spacing %g dt) departs from the basis waveform at that absolute time"
+                        % (g["name"], g["off"], g["count"], g["mul"]), key))
     compare("cos-sum", v, ref, np.arange(n), tol,
             "values differ from rms*sqrt(2/N)*sum A cos(2 pi f (t-t_ref) -/+ phi) of the published basis", [])
     # (3) function of absolute time: re-gridded windows agree at shared sample times / with the cosine sum
@@ -472,11 +562,13 @@ def gen_oracle_input(run, i):
         case = {"cls": "full", "n": n, "dt": dt, "t0": rng.choice([0.0, 2e-7]), "uniq": uniq, "fmin": m * delta,
                 "fmax": m * delta + B, "band": "commensurate", "spec": rng.choice([["const", 1.0], ["tape"]]),
                 "rms": rng.uniform(0.1, 2), "T": None, "R": None}
-        return {"case": case, "seed": rng.randrange(2 ** 31), "shifts": [rng.randint(-40, 40)], "commensurate": delta}
+        return {"case": case, "seed": rng.randrange(2 ** 31), "shifts": [rng.randint(-40, 40)], "commensurate": delta,
+                "regrids": regrid_specs(run, case, 4)}
     case = rand_case(run, force=rng.choice(["inside", "inside", "touch0", "above", "straddle", "narrow", "edges"]))
     case["band"] = "oracle"
     return {"case": case, "seed": rng.randrange(2 ** 31),
-            "shifts": [rng.randint(-3 * case["n"], 3 * case["n"]), rng.randint(1, max(1, case["n"] - 1))]}
+            "shifts": [rng.randint(-3 * case["n"], 3 * case["n"]), rng.randint(1, max(1, case["n"] - 1))],
+            "regrids": regrid_specs(run, case, 6)}
 
 
 def report(run, inp, res):
